@@ -446,3 +446,7 @@ mod test {
         emitter.dump(&parsed[0]).unwrap();
     }
 }
+
+#[cfg(kani)]
+#[path = "/verif/kani/direct/emitter_harness.rs"]
+pub(crate) mod verif_harness;
